@@ -56,7 +56,7 @@ def work(ctx, tier):
         sc["cfg"]["breaker"]["pre"] = rng.choice([[], sc["cfg"]["breaker"]["pre"]])
         if k % 3 == 0:
             sc["cfg"]["no_retry"] = True
-        sc["fault"] = {"kind": "cb", "cb": rng.choice(["astart", "aend", "aend", "abort_if"]), "at": rng.choice([0, 1, 2, "always"]), "exc": rng.choice(["RuntimeError", "ValueError", "KeyError"])}
+        sc["fault"] = {"kind": "cb", "cb": rng.choice(["astart", "aend", "aend", "abort_if"]), "at": rng.choice([0, 1, 2, "always"]), "exc": rng.choice(gen.CB_EXCS)}
         if k % 5 == 3:
             # a caller callback of the backoff phase gives up with AbortRetryError (the documented way to stop retrying from inside user
             # code): however the run delivers it, the call was aborted, not failed
@@ -101,7 +101,13 @@ def work(ctx, tier):
                     kind, val = rec.final
                     aborted = (kind == "return" and getattr(getattr(val, "stop_reason", None), "value", None) == "ABORTED") or (kind == "raise" and type(val).__name__ == "AbortRetryError")
                     vv = View(rec, sc)
-                    if aborted and vv.segs and vv.segs[-1].kind in ("exc", "res"):
+                    preparing_retry = not sc["cfg"].get("no_retry")
+                    if sc["fault"]["cb"] == "aend":
+                        # the end hook of an attempt that was going to be retried (its own `decision` argument says so); a hook that raises
+                        # after the verdict on the whole call has been given (final failure, success) does not undo that verdict
+                        last = [x for x in rec.trace if x[0] in ("aend", "fault")]
+                        preparing_retry = preparing_retry and len(last) >= 2 and last[-1][0] == "fault" and last[-2][0] == "aend" and last[-2][3] == "retry"
+                    if aborted and preparing_retry and vv.segs and vv.segs[-1].kind in ("exc", "res"):
                         # (a hook that raises after the operation has SUCCEEDED is not an aborted operation: not judged here)
                         ctx.cnt["calls_aborted_from_inside_a_backoff_callback"] += 1
                         if spy[1][0] != "br.cancel":
